@@ -357,6 +357,69 @@ fn http_on<S: Read + Write>(mut s: S, path: &str) -> Result<HttpResp, String> {
     parse_http(&buf).ok_or_else(|| format!("unparsable HTTP response ({} octets)", buf.len()))
 }
 
+/// Several GET requests on ONE connection (HTTP/1.1 keep-alive), each response read to its end
+/// (Content-Length or chunked) before the next request is written.
+pub fn http_tcp_seq(src: std::net::IpAddr, dst: std::net::SocketAddr, paths: &[&str]) -> Result<Vec<HttpResp>, String> {
+    let mut s = socket2_connect(src, dst)?;
+    s.set_read_timeout(Some(Duration::from_secs(5))).ok();
+    let mut out = vec![];
+    let mut pending: Vec<u8> = vec![];
+    for p in paths {
+        s.write_all(format!("GET {} HTTP/1.1\r\nHost: erbium\r\n\r\n", p).as_bytes()).map_err(|e| format!("write: {}", e))?;
+        // head
+        let head_end = loop {
+            if let Some(pos) = pending.windows(4).position(|w| w == b"\r\n\r\n") {
+                break pos;
+            }
+            let mut buf = [0u8; 4096];
+            let n = s.read(&mut buf).map_err(|e| format!("read: {}", e))?;
+            if n == 0 {
+                return Err(format!("connection closed after {} response(s)", out.len()));
+            }
+            pending.extend_from_slice(&buf[..n]);
+        };
+        let head = String::from_utf8_lossy(&pending[..head_end]).to_ascii_lowercase();
+        let status: u16 = head.split_whitespace().nth(1).and_then(|x| x.parse().ok()).ok_or("no status")?;
+        let mut rest = pending[head_end + 4..].to_vec();
+        let body;
+        if head.contains("transfer-encoding: chunked") {
+            // read until the terminating chunk
+            loop {
+                if rest.windows(5).any(|w| w == b"0\r\n\r\n") {
+                    break;
+                }
+                let mut buf = [0u8; 4096];
+                let n = s.read(&mut buf).map_err(|e| format!("read: {}", e))?;
+                if n == 0 {
+                    break;
+                }
+                rest.extend_from_slice(&buf[..n]);
+            }
+            let end = rest.windows(5).position(|w| w == b"0\r\n\r\n").map(|p| p + 5).unwrap_or(rest.len());
+            body = rest[..end].to_vec();
+            pending = rest[end..].to_vec();
+        } else {
+            let cl: usize = head
+                .lines()
+                .find_map(|l| l.strip_prefix("content-length:").map(|v| v.trim().parse::<usize>().unwrap_or(0)))
+                .unwrap_or(0);
+            while rest.len() < cl {
+                let mut buf = [0u8; 4096];
+                let n = s.read(&mut buf).map_err(|e| format!("read: {}", e))?;
+                if n == 0 {
+                    break;
+                }
+                rest.extend_from_slice(&buf[..n]);
+            }
+            let cl = cl.min(rest.len());
+            body = rest[..cl].to_vec();
+            pending = rest[cl..].to_vec();
+        }
+        out.push(HttpResp { status, body });
+    }
+    Ok(out)
+}
+
 pub fn http_tcp(src: std::net::IpAddr, dst: std::net::SocketAddr, path: &str) -> Result<HttpResp, String> {
     let sock = socket2_connect(src, dst)?;
     sock.set_read_timeout(Some(Duration::from_secs(5))).ok();
